@@ -154,6 +154,12 @@ class LibMap:
             if op in BUILTIN_OPS and len(args) == 2:
                 ct1 = self.mapped(em, args[1])
                 if ct1 is not None and (is_scalar(ct1) or ct1 == "vf_str"):
+                    if ct0 == "vf_str" and op == "+" and ct1 == "vf_str":
+                        # string contents are outside the subset: concatenation is an opaque callee (needs a contract)
+                        em.note_proto("vf_str_concat", "vf_str", ["vf_str", "vf_str"], "std::string operator+")
+                        em.callees["vf_str_concat"] = "std::operator+(std::string, std::string)"
+                        em.callflag = True
+                        return "vf_str_concat(%s, %s)" % (em.E(a0), em.E(args[1]))
                     if ct0 == "vf_str" and op in ("+", "+=", "<", ">"):
                         return None
                     if op in ("==", "!=") and {ct0, ct1} == {"vf_str", "char*"}:
@@ -285,6 +291,8 @@ class LibMap:
                 return self.str_fn(em, "vf_str_empty", "_Bool", ["vf_str"], [o])
             if name in ("size", "length"):
                 return self.str_fn(em, "vf_str_size", "size_t", ["vf_str"], [o])
+            if name.startswith("operator basic_string_view") and self.mapped(em, n) == "vf_str":
+                return o  # string -> string_view: same opaque id
             # any other std::string member function: opaque callee on string ids (needs an assumed contract in the spec)
             pcs, avs = ["vf_str"], [o]
             for a in args:
@@ -340,6 +348,9 @@ class LibMap:
         if name in ("size",):
             return "%s->n" % em.paren(p) if re.fullmatch(r"&?[\w.>-]+", p) else "%ssize(%s)" % (f, p)
         if name == "empty":
+            if re.fullmatch(r"&?[\w.>-]+", p):
+                # direct field read, like size(): a call in a loop guard defeats dfcc's loop-contract instrumentation
+                return "(%s->n == 0)" % em.paren(p)
             return "(%ssize(%s) == 0)" % (f, p)
         if name == "front":
             return "(*%sat(%s, 0))" % (f, p)
@@ -565,6 +576,13 @@ class LibMap:
                 p = em.addr_of(args[0])
                 return "vf_seq_%s_find_in(vf_seq_%s_begin(%s), vf_seq_%s_end(%s), %s)" % (tag, tag, p, tag, p,
                                                                                         em.E(args[1]))
+        if name in ("find_if", "find_if_not", "any_of", "all_of", "none_of") and len(args) == 3 and \
+                em.cfg.get("pred_inline"):
+            # units.json "pred_inline": true -> single-return lambdas are inlined into an index loop of the unit itself
+            # (loop contract written in the unit's scope); default is the per-call-site model function of algo_call
+            r = self.pred_loop(em, n, name, args)
+            if r is not None:
+                return r
         if name in em.ALGO_BODIES and len(args) == 3:
             r = em.algo_call(n, name, args)
             if r is not None:
@@ -750,7 +768,56 @@ class LibMap:
         return None
 
     def lambda_expr(self, em, n):
-        return em.lift_lambda(n)
+        raise Unsupported("lambda outside std::find_if/any_of/all_of/none_of")
+
+    def pred_loop(self, em, n, name, args):
+        """std::find_if / find_if_not / any_of / all_of / none_of over [b, e) of a modelled sequence with a lambda whose
+        body is a single `return expr;`: an index loop hoisted before the statement (it takes the next loop ordinal
+        and a VF_LOOP_<cname>_<k> macro like every loop of the unit; index `__i<k>`, base `__fb<k>`, count `__fn<k>`),
+        with the predicate inlined on the element `__fb<k>[__i<k>]` (captures are the enclosing variables themselves:
+        the lambda is called before anything can change them)."""
+        lam = skip(args[2])
+        while lam.get("kind") == "CXXConstructExpr" and len(lam.get("inner", [])) == 1:
+            lam = skip(lam["inner"][0])
+        if lam.get("kind") != "LambdaExpr":
+            return None
+        ct = self.mapped(em, args[0])
+        if not ct or not ct.endswith("*") or self.mapped(em, args[1]) != ct:
+            return None
+        rec = lam["inner"][0]
+        meth = [m for m in rec.get("inner", []) if m.get("kind") == "CXXMethodDecl" and m.get("name") == "operator()"]
+        body = lam["inner"][-1]
+        if len(meth) != 1 or body.get("kind") != "CompoundStmt":
+            return None
+        params = [p for p in meth[0].get("inner", []) if p.get("kind") == "ParmVarDecl"]
+        stmts = [s for s in body.get("inner", []) if s.get("kind") != "NullStmt"]
+        if len(params) != 1 or len(stmts) != 1 or stmts[0].get("kind") != "ReturnStmt" or not stmts[0].get("inner"):
+            raise Unsupported("std::%s with a lambda that is not a single return statement" % name)
+        b, e = em.E(args[0]), em.E(args[1])
+        k = em.unit.loops
+        m = em.loop_macro()
+        fb, fn, fi = "__fb%d" % k, "__fn%d" % k, "__i%d" % k
+        em.local_names[params[0]["id"]] = "(%s[%s])" % (fb, fi)
+        # the predicate is evaluated in the loop guard (conditionally, once per element): no hoisting of nested calls
+        em.lazy_depth = getattr(em, "lazy_depth", 0) + 1
+        try:
+            pre, p = em.with_pre(lambda: em.E(stmts[0]["inner"][0]))
+        finally:
+            em.lazy_depth -= 1
+        if pre:
+            raise Unsupported("temporaries in the predicate of std::%s" % name)
+        stop = p if name in ("find_if", "any_of", "none_of") else "!(%s)" % p
+        em.pre.append("%s %s = %s;" % (ct, fb, b))
+        em.pre.append("size_t %s = (size_t)(%s - %s);" % (fn, em.paren(e), fb))
+        em.pre.append("size_t %s = 0;" % fi)
+        em.pre.append("while (%s < %s && !(%s))" % (fi, fn, stop))
+        em.pre.append("  " + m)
+        em.pre.append("{ %s++; }" % fi)
+        if name in ("find_if", "find_if_not"):
+            return "(%s + %s)" % (fb, fi)
+        if name == "any_of":
+            return "(%s < %s)" % (fi, fn)
+        return "(%s == %s)" % (fi, fn)
 
     # ------------------------------------------------------------------ range-for
     def for_range(self, em, n, ind):
